@@ -358,3 +358,51 @@ PROPS["C01"] = {
 }
 PROPS["C05"]["kani"].append(H(WB, "c05_format_extent_size_agrees", "the retirement path's extent length (format_extent_size) equals the format's total_size.div_ceil(4096) for v1 AND v2/v3 – release side agrees with the allocate side", "3-byte key, all value lengths <= 4 MiB, versions 1..3"))
 PROPS["C05"]["functions"].append(WB + "::format_extent_size")
+
+PD_TEXT = " E2 over MIR, every path of write_buffer::process_deletions (each loop: one arbitrary iteration, ~1100 paths): a generation is queued for a retirement marker only if successor_is_durable_or_deleted() held, only after retire_extent() set RETIRED and the subsequent extent_has_readers() returned false; DELETE_MARKER_DURABLE is stored only after retire_extents() returned Ok; a failing retire_extents() releases nothing, marks nothing and is reported; an extent reaches the release step only after a second reader check said no."
+PROPS["C02"]["level_text"] += PD_TEXT
+PROPS["C08"]["level_text"] += PD_TEXT
+PROPS["C09"]["smt"] = "c09"
+PROPS["C09"]["engine_name"] = "E1-kani + E2-mir-smt"
+PROPS["C09"]["technique"] += "; SMT/trace obligations over the MIR of process_deletions"
+PROPS["C09"]["level_text"] += PD_TEXT
+PROPS["C09"]["level_note"] += " " + E2NOTE
+for _p in ("C02", "C08", "C09"):
+    PROPS[_p]["functions"].append(WB + "::process_deletions")
+
+PWB_TEXT = " E2 over MIR, every path of write_buffer::process_write_batch from the write phase on: record.sector is stored and the in-memory value dropped only where the allocation-intent journal write, then the record write (which fsyncs), then the journal clear each returned Ok, in that order; reservations are marked dirty before the first device call; where a device call failed the function returns failed_batch_outcome(..) and publishes no sector."
+IOP_TEXT = " E2 over MIR of io.rs: retire_extents does ACTIVE journal -> markers -> CLEAR per chunk, each step only after the previous returned Ok, poisons the device on any failure and returns Ok only if everything succeeded; replay_allocation_journal clears the journal last; write/clear_allocation_journal fsync the new image before generation/slot advance and leave both untouched on failure; next_journal_position yields generation+1 and the other slot."
+PROPS["C02"]["level_text"] += PWB_TEXT
+PROPS["C03"]["level_text"] += PWB_TEXT + IOP_TEXT
+PROPS["C09"]["level_text"] += PWB_TEXT + IOP_TEXT
+for _p in ("C02", "C03", "C09"):
+    PROPS[_p]["functions"].append(WB + "::process_write_batch")
+for _p in ("C03", "C09"):
+    PROPS[_p]["functions"] += [IO + "::retire_extents", IO + "::replay_allocation_journal", IO + "::write_allocation_journal", IO + "::clear_allocation_journal", IO + "::next_journal_position"]
+PROPS["C10"]["smt"] = "c10"
+PROPS["C10"]["engine_name"] = "E1-kani + E2-mir-smt"
+PROPS["C10"]["level_text"] += " E2 over MIR: write_store_metadata writes generation g+1 to block 0 when even / block 7 when odd, write then fsync, caller's copy advances only on Ok."
+PROPS["C10"]["functions"].append(IO + "::write_store_metadata")
+PROPS["C10"]["outside"] = PROPS["C10"]["outside"].replace("journal DECODING (12 KiB slot arrays exceed CBMC's array post-processing budget), ", "journal decoding beyond panic-freedom and per-entry acceptance (C17/C03), ")
+
+SCAN_TEXT = " E2 over MIR, one ARBITRARY iteration of the recovery scan (~670 paths): newest-timestamp-wins (a verified record is discarded only when an indexed generation of its key is newer, indexed only otherwise); when a generation is replaced, the memory_usage, disk_usage and free-space adjustments are computed from the REPLACED generation and the additions from the new record; record_count grows only for a new key; every path back to the loop header advanced `sector`, an accepted record by exactly its extent length."
+for _p in ("C10", "C11", "C13"):
+    PROPS[_p]["level_text"] += SCAN_TEXT
+    PROPS[_p]["functions"].append(REC + "::scan_and_rebuild_indexes")
+PROPS["C19"]["smt"] = "c19"
+PROPS["C19"]["engine_name"] = "E1-kani + E2-mir-smt"
+PROPS["C19"]["technique"] += "; SMT/trace obligations over the MIR of the periodic coordinator closure and trigger_flush"
+PROPS["C19"]["level_text"] += " E2 over MIR: the periodic coordinator returns on no path other than shutdown==true read at the top of its loop (a full worker queue never ends write-behind) and inspects (w..S).step_by(W); trigger_flush wakes exactly worker shard_id % W, and only for a full shard; flush_worker_shards builds its shard iterator from worker_id/worker_count (matched on MIR text)."
+PROPS["C19"]["level_note"] += " " + E2NOTE + " StepBy's element contract is trusted (z3 does not finish the 64-bit symbolic remainder lemma)."
+PROPS["C19"]["functions"] += [WB + "::start_workers", WB + "::trigger_flush", WB + "::flush_worker_shards"]
+PROPS["C20"]["smt"] = "c20"
+PROPS["C20"]["engine_name"] = "E1-kani + E2-mir-smt"
+PROPS["C20"]["technique"] += "; trace obligation over the MIR of TreeSlot::store (epoch-deferred destruction)"
+PROPS["C20"]["level_text"] += " E2 over MIR, every path of TreeSlot::store: a non-null swapped-out slot pointer is handed to Guard::defer_destroy exactly once and is never converted to an owned value or dropped immediately."
+PROPS["C20"]["functions"].append(RECORD + "::store")
+PROPS["C09"]["level_text"] += " E2: when a batch of a drained shard fails, flush_worker_shards also requeues the entries of that shard that were not yet attempted."
+PROPS["C09"]["functions"].append(WB + "::flush_worker_shards")
+PROPS["C16"]["level_text"] += " E2, one arbitrary step of the CLOCK sweep: the counter is decremented by the evicted entry's recorded size and the loop's running usage equals the counter's value after the subtraction (the sweep stops at the low watermark)."
+PROPS["C16"]["functions"].append("src/core/cache.rs::evict_entries")
+PROPS["C17"]["level_text"] += " E2, every path of `impl Drop for FeoxStore`: the final metadata write happens only for an initialized, persistent store – a store dropped because its open was rejected writes nothing."
+PROPS["C17"]["functions"].append(PERSIST + "::drop")
